@@ -241,6 +241,8 @@ def check_history(ctx, ops):
             own = nc.notes if op[1] == 0 else ctx.ok("add_notes", nc.add_notes, [])
             if failed(own):
                 break
+            if not isinstance(own, list):  # what add_notes returns is not part of the statement; removal "by lists" is
+                own = nc.notes
             if op[1] == 2:
                 ctx.ok("minus", nc.__sub__, own)
             else:
